@@ -132,7 +132,7 @@ PROPS = {
     },
     "C06": {
         "rules": [HF.r_refusal, HF.r_code_source, HF.r_stats_and_arms, only(BR.r_bracket, HUFF_ONLY), c06_peel,
-                  only(L.r_reset, HUFF_ONLY), FW.r_forward, HF.r_shift, HF.r_descent],
+                  only(L.r_reset, HUFF_ONLY), FW.r_forward, HF.r_shift, HF.r_descent, HF.r_tail],
         "explanation": "Only the structural clauses of the Huffman contract are decided; exact decoding, optimality and alphabet-size behaviour are numeric and stay undecided.",
         "decided": [
             "R-REFUSE: a symbol without a code reaches only a panicking unwrap, never a substitute code",
@@ -142,6 +142,7 @@ PROPS = {
             "R-RESET: default() and clear() fall back to raw storage with empty stats",
             "R-SHIFT: interval analysis of every overflow-checked shift whose amount is local scalar arithmetic (%, const-, min): the amount stays below the operand width",
             "R-DESCENT: in Decoder::next (helpers inlined) every table lookup that can run after a descent into a nested table indexes the descended table variable, never the root table alone",
+            "R-TAIL: every panic of Decoder::next is dominated by a still-valid test that undecoded bits remain (an item whose input is used up ends the iteration in every arm of the end-of-input match; found the >= 512-symbol / empty-alphabet decode panic, fixed in /repo)",
         ],
         "not_decided": ["exact decode at every bit alignment, code optimality, >= 1 bit per symbol (the single-symbol alphabet hangs/panics: observed, not decidable here), > 256 symbols", COMMON_ND],
     },
